@@ -1,6 +1,7 @@
 import Pcore.Proofs.TypeRT
 import Pcore.Proofs.TypedValRT
 import Pcore.Proofs.C05Samples
+import Pcore.Proofs.FloatLex
 /-!
 # C05 — Printing and parsing are inverse for types and literal values
 
@@ -22,8 +23,10 @@ Full statement / proved / missing
                        `C05_regexp_raw_newline_fails` (known findings C05-regexp-escaped-slash,
                        C05-regexp-raw-newline-nul-fffd: the printed literal denotes an equivalent, not an equal, regexp).
 * layer 1, integers  — `C05_int`: `ParseInt(FormatInt(i), 0, 64) = i` for every Int64, including ±2^63 boundaries.
-* floats             — not proved: decimal conversion is a parameter (`Env.pf`); the driver uses an exact decimal →
-                       binary64 reader that agrees with `strconv.ParseFloat` on every float the harness generated.
+* floats             — decimal conversion is a parameter (`Env.pf` reader, `Env.ff` formatter); proved: every text of the
+                       shapes `%g` produces lexes as one float token (`C05_float_text_lexes`), hence a float leaf needs
+                       only `env.pf text = some bits` (`C05_float_leaf`).  The driver uses an exact decimal → binary64
+                       reader that agrees with `strconv.ParseFloat` on every float the harness generated.
 * layers 2–3, values — `C05_value_roundtrip`: for EVERY literal value built from undef, default, booleans, Int64
                        integers, strings of arbitrary content, representable regexps, floats (under the `FloatIO`
                        hypothesis carried by `Lit`), arrays and hashes of any size and nesting, parsing the
@@ -65,8 +68,10 @@ Full statement / proved / missing
                        Float bounds: decimal float conversion is NOT modelled; the theorem assumes of it exactly `FloatIO`
                        per printed bound `b`: the text the formatter oracle gives (`env.ff b` = `floatGFormat "%g"`)
                        lexes as one float token and the reader oracle (`env.pf` = `strconv.ParseFloat`) maps it back to
-                       `b`.  The lexing half is a theorem for `D+.D+` texts (`nextToken_simple_float`); the driver's
-                       reader is the exact `parseFloat`, its formatter is the implementation's own text (op-line oracle).
+                       `b`.  The lexing half is a THEOREM for every shape `floatGFormat` produces (`C05_float_text_lexes`:
+                       `[-]D+.D+`, `[-]D+.D+e±D+`, `[-]D+e±D+`), so what is really assumed is `env.pf (env.ff b) = some b`
+                       and that `env.ff b` has such a shape (`C05_float_leaf`); the driver's reader is the exact
+                       `parseFloat`, its formatter is the implementation's own text (op-line oracle).
                        Callable: the creator `newCallableType3` + `tupleFromArgs(true, …)` and `CallableType.Parameters`
                        are modelled in full, degenerate forms included.  `CallableShape` carves out exactly the shapes that
                        print invertibly; outside it the statement is FALSE of the code (known finding C05-callable-block;
@@ -162,6 +167,45 @@ example : parse envEx (syms (printVal sampleObj)) =
   C05_value_roundtrip envEx sampleObj sampleObj_lit
 example : printVal sampleObj =
     "My::Lim('name' => 'it\\'s', 'type' => Optional[String[1]], 'value' => [1, Pt()])".toList := by decide +kernel
+
+/-- **the lexing half of the float parameter is a theorem** for every text of the shapes `floatGFormat` produces —
+    `[-]D+.D+`, `[-]D+.D+e±D+`, `[-]D+e±D+` —: followed by a continuation the printer produces it is read back as ONE float
+    token with exactly that text, provided the letter oracle does not take `,` `]` `}` `)` or a blank for a letter (the
+    exponent path asks `unicode.IsLetter` about the character after the digits).  What remains assumed of decimal float
+    conversion (`FloatIO`, `Lit (.float b t)`) is only `env.pf t = some b`: the reader maps the formatter's text back to
+    the same bits. -/
+theorem C05_float_text_lexes (il : Char → Bool) (hil : StopNotLetter il) (neg : Bool) (c : Char) (t : FTail)
+    (hc : isDigit c = true) (ht : t.OK) (k : List Sym) (hk : stopOK k = true) :
+    nextToken il (syms ((if neg then ['-'] else []) ++ c :: t.text) ++ k) =
+      .tok ⟨.float, (if neg then ['-'] else []) ++ c :: t.text⟩ k false := by
+  cases neg with
+  | true => simpa using nextToken_float_neg il hil c t hc ht k hk
+  | false => simpa using nextToken_float_pos il hil c t hc ht k hk
+
+/-- hence a float leaf is well-formed as soon as its text has such a shape and the reader maps it to its bits -/
+theorem C05_float_leaf (env : Env) (hil : StopNotLetter env.isLetter) (b : Nat) (neg : Bool) (c : Char) (t : FTail)
+    (hc : isDigit c = true) (ht : t.OK) (hpf : env.pf ((if neg then ['-'] else []) ++ c :: t.text) = some b) :
+    Lit env (.float b ((if neg then ['-'] else []) ++ c :: t.text)) :=
+  ⟨fun k hk => C05_float_text_lexes env.isLetter hil neg c t hc ht k hk, hpf⟩
+
+/-- non-vacuity: the oracle of the examples satisfies the side condition; `1.2345678925e+08`, `5e-324`, `-0.00000`,
+    `1e+21` have the shapes (texts the implementation prints for 123456789.25, the smallest subnormal, -0.0, 1e21) and, with
+    the exact reader, are float leaves -/
+def envP : Env := { isLetter := fun c => isUpper c || isLower c, rxOK := fun _ => true, pf := parseFloat }
+example : StopNotLetter envP.isLetter := by simp only [StopNotLetter, envP]; decide
+example : Lit envP (.float 4728057454363934720 "1.2345678925e+08".toList) :=
+  C05_float_leaf envP (by simp only [StopNotLetter, envP]; decide) _ false '1'
+    (.fracExp [] '2' "345678925".toList '+' '0' ['8']) (by decide) (by simp only [FTail.OK]; decide)
+    (by simp only [envP]; decide +kernel)
+example : Lit envP (.float 1 "5e-324".toList) :=
+  C05_float_leaf envP (by simp only [StopNotLetter, envP]; decide) _ false '5' (.exp [] '-' '3' ['2', '4']) (by decide)
+    (by simp only [FTail.OK]; decide) (by simp only [envP]; decide +kernel)
+example : Lit envP (.float 9223372036854775808 "-0.00000".toList) :=
+  C05_float_leaf envP (by simp only [StopNotLetter, envP]; decide) _ true '0' (.frac [] '0' "0000".toList) (by decide)
+    (by simp only [FTail.OK]; decide) (by simp only [envP]; decide +kernel)
+example : Lit envP (.float 4921056587992461136 "1e+21".toList) :=
+  C05_float_leaf envP (by simp only [StopNotLetter, envP]; decide) _ false '1' (.exp [] '+' '2' ['1']) (by decide)
+    (by simp only [FTail.OK]; decide) (by simp only [envP]; decide +kernel)
 
 /-- non-vacuity of the float parameter: for `D+.D+` texts the lexing half is a theorem; the conversion half is whatever
     `env.pf` is (the driver uses the exact reader `parseFloat`, e.g. `parseFloat "1.5" = 0x3FF8000000000000`) -/
